@@ -16,6 +16,11 @@ from .. import s2c, tlc
 from .bloomfam import GEOM, gen_tables, make_hash
 
 ENGINE = "ondisk"
+
+
+class NotRealised(Exception):
+    """a crash point of the model that the implementation never passes through"""
+
 MOD = "vlib.engines.ondisk"
 
 
@@ -181,9 +186,15 @@ class Ctx:
 
         try:
             self.do(state, hf, table, o, (t, pre, exp, mids, rp, sig), variant)
+        except NotRealised:
+            t.extra["skipped_crash_point_not_realised"] = t.extra.get("skipped_crash_point_not_realised", 0) + 1
         except Exception as exc:  # noqa
             import traceback
 
+            frames = traceback.extract_tb(exc.__traceback__)
+            if "/probables/" not in (frames[-1].filename if frames else "").replace("\\", "/"):
+                self.dispose(state)
+                raise      # raised by the harness itself: a failure of the machinery (exit 2), never a verdict
             t.fail("C11", "C11.operation_raises", ENGINE, rp(raised=repr(exc), tb=traceback.format_exc()[-1500:]), sig)
         self.dispose(state)
         t.sample({"geometry": [self.M, self.K], "table": table, "history": hist[-5:], "op": o, "expected": exp})
@@ -302,8 +313,8 @@ class Ctx:
                     if s and s["bits"] == bits and s["count"] == cnt:
                         target = data
                         break
-                if target is None:
-                    raise RuntimeError("crash point not reached by the implementation")
+                if target is None:      # this implementation does not pass through the model's intermediate file state (e.g. it stores all
+                    raise NotRealised()  # bits of a byte at once): the crash history cannot be realised on it and is not judged
                 f.close()  # the dying process' object; whatever it writes goes to the abandoned file
                 d2, n2 = self.newpath(0)
                 with open(os.path.join(d2, n2), "wb") as fh:
